@@ -22,7 +22,7 @@ from mc import core, fordrun
 from mc.core import Stats
 
 PROP = "C18"
-SYMS = ["<", ">", "&", '"', "''", "\\", "  ", "*", "_", "`", "[[x]]", "|x|", "<b>", "&amp;", ",", ";", "!", "="]
+SYMS = ["<", ">", "&", '"', "''", "\\", "  ", "*", "_", "`", "[[x]]", "|x|", "<b>", "&amp;", ",", ";", "!", "=", "/"]
 BATCH = 24
 
 
@@ -171,6 +171,25 @@ def site_program(site, payloads):
         elif site == "dim-expr":
             decl.append(f"integer :: {n}(len({L}))")
             checks.append(("module/cm.html", f"variable-{n}", f"(len({L}))"))
+        elif site == "expr-dim-result":
+            # the function result's declaration is shown in the heading of the "Return Value" section and on the module page
+            cont += [f"function f{i}() result({n})", f"integer :: {n}({pl})", f"{n} = 0", f"end function f{i}"]
+            checks.append((f"proc/f{i}.html", f"variable-{n}", f"({pl})", "integer"))
+        elif site == "expr-dim-arg":
+            cont += [f"subroutine s{i}({n})", f"integer, intent(in) :: {n}({pl})", f"end subroutine s{i}"]
+            checks.append((f"proc/s{i}.html", f"variable-{n}", f"{n}({pl})", "integer"))
+        elif site == "expr-dim-module":
+            decl.append(f"integer :: {n}({pl})")
+            checks.append(("module/cm.html", f"variable-{n}", f"{n}({pl})", "integer"))
+        elif site == "expr-dim-component":
+            types += [f"type t{i}", f"integer :: {n}({pl})", f"end type t{i}"]
+            checks.append((f"type/t{i}.html", f"variable-{n}", f"{n}({pl})", "integer"))
+        elif site == "expr-dimattr-result":
+            cont += [f"function f{i}() result({n})", f"integer, dimension({pl}) :: {n}", f"{n} = 0", f"end function f{i}"]
+            checks.append((f"proc/f{i}.html", f"variable-{n}", f"dimension({pl})", "integer"))
+        elif site == "expr-kind-result":
+            cont += [f"function f{i}() result({n})", f"integer(kind={pl}) :: {n}", f"{n} = 0", f"end function f{i}"]
+            checks.append((f"proc/f{i}.html", f"variable-{n}", f"integer(kind={pl})", "integer"))
         elif site == "relational":
             decl.append(f"logical, parameter :: {n} = {pl}")
             checks.append(("module/cm.html", f"variable-{n}", pl))
@@ -181,11 +200,15 @@ def site_program(site, payloads):
             decl.append(f"{vis} :: {pl}")
             cont += [f"subroutine {pl}(self)", f"class(bt{i}) :: self", f"end subroutine {pl}"]
             checks.append((f"type/bt{i}.html", f"boundprocedure-bnd{i}", f"bnd{i} => {pl}"))
-    src = ["module cm", "implicit none"] + types + decl + (["contains"] + cont if cont else []) + ["end module cm"]
+    src = ["module cm", "implicit none", "integer, parameter :: nn = 8"] + types + decl + (["contains"] + cont if cont else []) + ["end module cm"]
     return {"src/cm.f90": "\n".join(src) + "\n"}, checks
 
 
-SITES = ["initial-module", "initial-local", "initial-component", "initial-namelist", "bind-proc", "bind-var", "len-expr", "kind-expr", "dim-expr"]
+SITES = ["initial-module", "initial-local", "initial-component", "initial-namelist", "bind-proc", "bind-var", "len-expr", "kind-expr", "dim-expr",
+]
+EXPR_SITES = ["expr-dim-result", "expr-dim-arg", "expr-dim-module", "expr-dim-component", "expr-dimattr-result", "expr-kind-result"]
+# expressions (no character literals) for array bounds / kind selectors; `nn` is a module parameter
+EXPRS = ["nn", "nn/2", "(nn+1)/2", "2*nn/3", "nn/2/2", "max(nn/2, 1)", "nn**2", "nn-1", "2:nn", "-1:nn/2", "nn, nn/2", "0:nn-1, 2", "size([1, 2])", "8/2", "nn*2/4"]
 RELATIONAL = ["1 < 2", "1 > 2", "1 <= 2", "1 >= 2", "1 == 2", "1 /= 2", "1 .lt. 2", "1 < 2 .and. 3 >= 2", "(1 <= 2) .or. (3 == 4)", "2 > 1 .and. 1 /= 0",
               "selected_real_kind(6, 30) > 0", "iand(1, 2) == 0", "[1, 2] == [1, 3]", "'a' < 'b'", "1.0_8 >= 2.0_8"]
 KINDEXPR = ["selected_real_kind(6, 30)", "selected_int_kind(9)", "kind(1.0d0)", "max(4, 8)", "c_int"]
@@ -214,7 +237,7 @@ def check_batch(st: Stats, site, payloads, neutral_shape):
             st.stratum(stratum, 1)
             return shapes
         doms = {}
-        for (page, anchor, want), pl in zip(checks, payloads):
+        for (page, anchor, want, *more), pl in zip(checks, payloads):
             st.transitions += 1
             st.nontrivial.add(core.digest([site, pl]))
             inp = dict(site=site, payload=pl, source_line=[l for l in files["src/cm.f90"].split("\n") if (pl in l)][:1])
@@ -243,9 +266,9 @@ def check_batch(st: Stats, site, payloads, neutral_shape):
             shp = shape_of(row)
             shapes[pl] = shp
             bad = 0
-            if squeeze(want) not in squeeze(got_text):
+            if squeeze(want) not in squeeze(got_text) or (more and not squeeze(got_text).startswith(more[0])):
                 bad += 1
-                st.violation("text-differs-from-source", stratum, feats, inp, got_text[:200], want)
+                st.violation("text-differs-from-source", stratum, feats, inp, got_text[:200], want if not more else f"{more[0]} ... {want}")
             if neutral_shape is not None and shp != neutral_shape:
                 bad += 1
                 st.violation("source-text-changed-page-structure", stratum, feats, inp, repr(shp)[:300], repr(neutral_shape)[:300])
@@ -263,6 +286,8 @@ def work(job):
     st = Stats()
     # neutral literal first: its row structure is the reference structure for this site
     neutral = "x" if site not in ("relational",) else "1 .eqv. 2"
+    if site in EXPR_SITES:
+        neutral = "4"
     if site == "binding-target":
         neutral = None
     if site == "kind-expr-fn":
@@ -294,8 +319,8 @@ def replay(path):
     i = rec["input"]
     st = Stats()
     site = i["site"]
-    neutral = "x" if site != "relational" else "1 .eqv. 2"
-    nshape = check_batch(Stats(), site, [neutral], None).get(neutral)
+    neutral = "4" if site in EXPR_SITES else ("x" if site != "relational" else "1 .eqv. 2")
+    nshape = check_batch(Stats(), site, [neutral], None).get(neutral) if site != "binding-target" else None
     check_batch(st, site, [i["payload"]], nshape)
     print(i)
     for v in st.violations:
@@ -315,6 +340,9 @@ def main(tier, replay_path=None):
         for i in range(0, len(pls), chunk):
             jobs.append((site, pls[i:i + chunk]))
     jobs.append(("relational", RELATIONAL))
+    for es in EXPR_SITES:
+        # a kind selector is one scalar expression
+        jobs.append((es, [e for e in EXPRS if es != "expr-kind-result" or (":" not in e and ", " not in e.replace("(nn/2, 1)", "").replace("[1, 2]", ""))]))
     jobs.append(("binding-target", [f"impl_{c}" for c in "abcdefgh"]))
     k = core.SEED % 5
     jobs = jobs[k:] + jobs[:k]
@@ -324,7 +352,7 @@ def main(tier, replay_path=None):
     return core.finish(
         PROP, tier, "model_checking", total, t0,
         rule=(f"all sequences of <= {2 if tier == 'quick' else 3} symbols over {len(SYMS)} HTML/Markdown-significant pieces ({len(pls)} literals) x {len(SITES)} declaration sites "
-              f"(batched {BATCH} declarations per site build) + {len(RELATIONAL)} relational expressions; transitions = declarations checked on their page; states = distinct row structures"),
+              f"(batched {BATCH} declarations per site build) + {len(RELATIONAL)} relational expressions + {len(EXPRS)} bound/kind expressions x {len(EXPR_SITES)} sites (module variable, component, argument, function result); transitions = declarations checked on their page; states = distinct row structures"),
         assumptions=[
             "literal payloads are wrapped in single quotes; a non-breaking blank is accepted for a blank",
             "the row structure for the neutral literal 'x' at the same site is the reference structure",
